@@ -318,8 +318,10 @@ def install_collect_impl(w):
                        "variable_values": "opaque", "fragment_variable_values": "opaque",
                        "hide_suggestions": "bool"},
                returns="dyn", ensures=[], raises=["GraphQLError"], assumed=True)
+    # visited_fragment_names carries the termination measure 'cf_rank' (pyvc/maps.py rank_ghost):
+    # the sum over the fragment names of 2 (not visited) / 1 (visited deferred) / 0 (visited)
     CTX = ("tuple", "schema", ("omap", "ref:FragmentDetails"), "dyn", "dyn", "ty",
-           ("map", "bool"), "bool", ("list", "dyn"), "bool")
+           ("map", "bool", "rank:cf_rank"), "bool", ("list", "dyn"), "bool")
     w.define("IsFieldSel", "n", "instance_of_ref(n, 'FieldNode')")
     w.define("IsInlineSel", "n", "instance_of_ref(n, 'InlineFragmentNode')")
     w.define("IsSpreadSel", "n", "instance_of_ref(n, 'FragmentSpreadNode')")
@@ -331,9 +333,16 @@ def install_collect_impl(w):
                        "defer_usage": "dyn", "fragment_variable_values": "dyn"},
                requires=["kind_is(context[4], 'OBJECT')"],
                # 'recursed' counts the recursive calls made by one activation (per-activation ghost)
-               ensures=[], raises=["GraphQLError"], ghost_calls=["recursed"],
-               ghost_modifies=["grouped"], modifies=[],
-               loops={1: {"step_post": [
+               # termination (C01: a cyclic fragment must not recurse without bound): every recursive
+               # call lowers (cf_rank, ast_size(selection_set)) lexicographically - a spread is followed
+               # only after its entry in visited_fragment_names moved down, an inline fragment is a
+               # strictly smaller node and the table never moves up
+               ensures=["ghost('cf_rank') <= old(ghost('cf_rank'))", "ghost('cf_rank') >= 0"],
+               raises=["GraphQLError"], ghost_calls=["recursed"],
+               ghost_modifies=["grouped", "cf_rank"], modifies=[], modifies_maps=True,
+               decreases=["ghost('cf_rank')", "ast_size(selection_set)"],
+               loops={1: {"invariant": ["ghost('cf_rank') <= old(ghost('cf_rank'))", "ghost('cf_rank') >= 0"],
+                          "step_post": [
                    # CollectFields: a field that is not skipped is added to its group, once
                    "implies(IsFieldSel(selection), ghost('grouped') == at_iter_start(ghost('grouped')) + 1"
                    " and ghost('recursed') == at_iter_start(ghost('recursed')))",
@@ -360,7 +369,7 @@ def install_collect_impl(w):
                    " and forall_int(k, mhas(visited_fragment_names, k)"
                    " == at_iter_start(mhas(visited_fragment_names, k))))",
                ]}},
-               props={"C02", "C13"})
+               props={"C02", "C13", "C01"})
     # does_fragment_condition_match is called with inline fragments and fragment definitions
     w.shape("InlineFragmentNode", type_condition="opt:ref:NamedTypeNode")
 
